@@ -22,21 +22,45 @@ def groups(tier, seed):
 
 def ref_weight(p, t, constrained, prefix=()):
     """sum of the log probabilities of the constrained sites of reference trace t"""
+    return gfi.scalar_sum(_ref_weight_lanes(p, t, constrained, prefix, 0))
+
+
+def _sum_trailing(a, nlane):
+    """sum an object array over all axes after the first nlane (lane / step) axes"""
+    a = sj.obj(a)
+    if a.ndim <= nlane:
+        return a
+    out = np.empty(a.shape[:nlane], dtype=object)
+    for idx in np.ndindex(*a.shape[:nlane]):
+        out[idx] = gfi.scalar_sum(a[idx]).item()
+    return out
+
+
+def _ref_weight_lanes(p, t, constrained, prefix, nlane):
+    """per-lane (leading vmap / scan axes kept) sums, so that a Cond inside a Vmap or Scan selects lane by lane"""
     if p.kind == "dist":
-        return gfi.neg(gfi.scalar_sum(t.score)) if constrained(prefix) else sj.obj(sj.RV(0))
+        if constrained(prefix):
+            return gfi.neg(_sum_trailing(t.score, nlane))
+        z = np.empty(sj.obj(t.score).shape[:nlane], dtype=object)
+        z.fill(sj.RV(0))
+        return z
     if p.kind == "fn":
-        acc = sj.obj(sj.RV(0))
+        acc = None
         for st in p.body:
             if isinstance(st, rs.Sample):
-                acc = gfi.add(acc, ref_weight(st.callee, t.choices[st.addr], constrained, prefix + (st.addr,)))
+                w = _ref_weight_lanes(st.callee, t.choices[st.addr], constrained, prefix + (st.addr,), nlane)
+                acc = w if acc is None else gfi.add(acc, w)
+        if acc is None:
+            acc = np.empty(sj.obj(t.score).shape[:nlane], dtype=object)
+            acc.fill(sj.RV(0))
         return acc
     if p.kind == "vmap":
-        return ref_weight(p.callee, t, constrained, prefix)
+        return _ref_weight_lanes(p.callee, t, constrained, prefix, nlane + 1)
     if p.kind == "scan":
-        return ref_weight(p.callee, t.traces, constrained, prefix)
+        return _ref_weight_lanes(p.callee, t.traces, constrained, prefix, nlane + 1)
     if p.kind == "cond":
-        return rs._where(t.check, ref_weight(p.a, t.trs[0], constrained, prefix),
-                         ref_weight(p.b, t.trs[1], constrained, prefix))
+        return rs._where(t.check, _ref_weight_lanes(p.a, t.trs[0], constrained, prefix, nlane),
+                         _ref_weight_lanes(p.b, t.trs[1], constrained, prefix, nlane))
 
 
 def run_group(g, gid):
